@@ -152,7 +152,7 @@ def daemon_cases(ctx: common.Ctx, n: int) -> Iterator[dict[str, Any]]:
 
 def run(ctx: common.Ctx) -> None:
     quick = ctx.tier == "quick"
-    n_fix, n_ts, n_dm = (0, 4000, 250) if quick else (0, 30000, 1500)
+    n_fix, n_ts, n_dm = (0, 4000, 250) if quick else (0, 12000, 700)
     scale = float(os.environ.get("VERIF_SCALE", "1"))
     n_fix, n_ts, n_dm = int(n_fix * scale), int(n_ts * scale), int(n_dm * scale) * (0 if os.environ.get("VERIF_C20_NODAEMON") else 1)
     ctx.assumptions += ["core workload (corpus mutants, daemon edit sequences) is seed-independent so that the crashes already present in the tree are listed exactly; VERIF_SEED drives a slice of generated programs and perturbations"]
